@@ -653,6 +653,8 @@ fn write_buffer_worker(ctx: WorkerContext, flush_rx: Receiver<FlushRequest>) {
         if let Some(tx) = req.response {
             let _ = tx.send(result);
         }
+        #[cfg(feature = "verif")]
+        crate::verif::note("worker_done", ctx.worker_id as u64, 0);
     }
 
     if ctx.shutdown.load(Ordering::Acquire) {
